@@ -56,6 +56,23 @@ type richProbe struct {
 	F    float64
 }
 
+// lateEmpty: members that are empty only once marshaled - whether they are omitted is decided
+// after the fact, by an option that may be present with either value.  (Marshals under any
+// option list, unlike richProbe whose duration needs a format.)
+type lateEmpty struct {
+	A  int
+	E  struct{}         `json:",omitempty"`
+	PE *struct{}        `json:",omitempty"`
+	IE any              `json:",omitempty"`
+	NM *nullWhenEncoded `json:",omitempty"`
+	S  []int            `json:",omitempty"`
+	Z  int
+}
+
+type nullWhenEncoded struct{}
+
+func (*nullWhenEncoded) MarshalJSON() ([]byte, error) { return []byte("null"), nil }
+
 type panicky struct{}
 
 func (panicky) MarshalJSON() ([]byte, error)  { panic("user marshaler panics") }
@@ -68,6 +85,7 @@ func marshalProbes() []any {
 		richProbe{D: 1500 * time.Millisecond, Arr: [2]byte{1, 2}, B: []byte("hi"), H: "<a>& ", Bad: "a\xffb", P: &five, Q: 7, F: 1.5},
 		map[string]any{"a": []any{nil, "x <", map[string]any{"z": 1.5}}}, // one key per map: no ordering freedom
 		[]any{1.0, "s", nil, true, map[string]any{}},
+		lateEmpty{A: 1, PE: new(struct{}), IE: map[string]int{}, NM: new(nullWhenEncoded), Z: 2},
 	}
 }
 
